@@ -4,7 +4,8 @@
 (* elements removed; ancestor/self/cyclic use references are faults of the  *)
 (* use element.                                                             *)
 EXTENDS Rat, Sequences, TLC, FiniteSets
-CONSTANTS MaxTok, NFaults
+CONSTANTS MaxTok, NFaults,
+          MinTok     \* faults are injected into documents of at least this many tokens (1 = all; larger in simulation mode)
 VARIABLES doc, faults, out
 vars == <<doc, faults, out>>
 AF == INSTANCE Affine
@@ -55,7 +56,7 @@ Build == /\ faults = <<>> /\ Len(doc) < MaxTok
          /\ UNCHANGED faults
          /\ out' = RenderDoc(Close(doc'), <<<<>>, <<>>, 0>>, <<>>)
 \* inject a fault into element i (kept sorted by index); the root may be faulty too: then nothing is required to render
-Inject == /\ Len(faults) < NFaults
+Inject == /\ Len(faults) < NFaults /\ Len(doc) >= MinTok
           /\ \E i \in 1..Len(doc) : \E k \in DF!FaultsOf(doc[i]) :
                /\ doc[i][1] # "end"
                /\ (IF faults = <<>> THEN TRUE ELSE faults[Len(faults)][1] < i)
@@ -67,6 +68,8 @@ Inject == /\ Len(faults) < NFaults
           /\ UNCHANGED doc
 Init == doc = <<Root>> /\ faults = <<>> /\ out = RenderDoc(Close(doc), <<<<>>, <<>>, 0>>, <<>>)
 Next == Build \/ Inject
+\* simulation mode: deeper documents, up to NFaults faults
+Emit == faults # <<>> => PrintT(<<"CASE", doc, faults, out>>)
 \* removing faulty elements keeps the document well formed, and what is rendered then is part of what the fault-free document renders or depends on removed definitions
 RemovedIsBalanced == (faults # <<>> /\ faults[1][1] # 1) =>
      Balanced(DF!RemoveAll(Close(doc), {faults[j][1] : j \in 1..Len(faults)}))
